@@ -28,7 +28,11 @@ RULE = ("a case is a tree of dataclasses: every class has 0-2 int/str leaf field
         "clash trees under EXPLICIT/NONE are left to the correspondence ops (oracle:*unjudged*). A model answer "
         "`unmodelled` on a well-shaped case counts as a mismatch. A second stream drives Union[A, B] sub-command "
         "fields end-to-end (real code + oracle only; default and dash-variant settings on underscore-free names); a "
-        "third compares the outcome-level argparse model with the real argparse on random tables.")
+        "third compares the outcome-level argparse model with the real argparse on random tables; a fourth (sg.mixed, "
+        "real code + oracle only) builds a parent with subgroup fields AND a Union sub-command field whose dataclasses "
+        "have subgroup fields of their own (distinct names, default settings; 30% parsed into a namespace that already "
+        "carries a `subgroups` report): value, and namespace.subgroups = the chosen key of every subgroup of the parent "
+        "and of the chosen sub-command's dataclass, earlier keys kept.")
 ASSUMPTIONS = [
     "argparse on `--opt value` pairs: exact option match first, unique-prefix abbreviation when allow_abbrev, last "
     "occurrence wins, type/choices/required/unrecognized errors exit with status 2 (checked by op sg.parse)",
@@ -81,7 +85,7 @@ def pyval(v):
     return int(v["v"]) if v["t"] == "int" else v["v"]
 
 
-def build_class(spec: dict):
+def build_class(spec: dict, extra_fields=()):
     """Real dataclass for one node of the tree (fresh class objects for every node)."""
     from simple_parsing import subgroups
 
@@ -120,6 +124,7 @@ def build_class(spec: dict):
             else:
                 fields.append((f["name"], ann, subgroups(d, default=f["default"])))
     # required fields first is NOT needed: make_dataclass with kw_only avoids the ordering constraint
+    fields += list(extra_fields)
     return dataclasses.make_dataclass(spec["name"], fields, frozen=bool(spec.get("frozen")), kw_only=True,
                                       module="c07_dynamic")
 
@@ -301,6 +306,44 @@ def impl_union(c: dict) -> dict:
     return r
 
 
+def pair_tokens(pairs, forms=None) -> list[str]:
+    return tokens({"argv": pairs, "forms": forms or []})
+
+
+def impl_mixed(c: dict) -> dict:
+    """A parent dataclass with subgroup field(s) AND a Union[A, B] sub-command field whose dataclasses have subgroup
+    fields of their own; optionally parsed into a namespace that already carries a `subgroups` report."""
+    sp.reset_globals()
+    cmd_classes = {spec["name"]: build_class(spec) for spec in c["cmds"]}
+    ann = Union[tuple(cmd_classes.values())]
+    if c.get("cmd_default"):
+        cmd_field = ("cmd", ann, dataclasses.field(default_factory=cmd_classes[c["cmd_default"]]))
+    else:
+        cmd_field = ("cmd", ann)
+    Root = build_class(c["root"], extra_fields=[cmd_field])
+    parser = sp.make_parser(DEFAULT_CFG)
+    parser.add_arguments(Root, dest="top")
+    argv = pair_tokens(c["root_argv"]) + ([c["token"]] if c.get("token") else []) + pair_tokens(c["cmd_argv"])
+    pre = None
+    if c.get("pre_ns"):
+        pre = argparse.Namespace(subgroups={"other.x": "k0", "other.y": "k1"}, keep=1)
+    r = sp.run_outcome(lambda: parser.parse_args(argv, pre) if pre is not None else parser.parse_args(argv))
+    if r["o"] == "ok":
+        ns = r.pop("value")
+        leaves, classes = {}, {}
+        flatten_instance(getattr(ns, "top"), "top", leaves, classes)
+        sub = getattr(ns, "subgroups", None)
+        r.update(leaves=leaves, classes=classes,
+                 subgroups=None if sub is None else {k: sp.cv(v) for k, v in sub.items()},
+                 extra_ns=sorted(k for k in vars(ns) if k not in ("top", "subgroups")))
+    elif r["o"] == "raise":
+        r.pop("msg", None)
+    else:
+        r = {"o": "exit", "code": r["code"], "kind": r.get("kind")}
+    sp.reset_globals()
+    return r
+
+
 def impl(case):
     op = case["op"]
     c = case["case"]
@@ -312,6 +355,8 @@ def impl(case):
         return impl_parse(c)
     if op == "sg.union":
         return impl_union(c)
+    if op == "sg.mixed":
+        return impl_mixed(c)
     raise ValueError(op)
 
 
@@ -789,7 +834,71 @@ def oracle_union(c: dict, obs: dict) -> list[dict]:
     return []
 
 
+def oracle_mixed(c: dict, obs: dict) -> list[dict]:
+    """value + `namespace.subgroups` of a parent that mixes subgroup fields and a Union sub-command field: the report
+    holds the chosen key of every subgroup of the parent and of the chosen sub-command's dataclass (clean-tree
+    spelling of the latter's destinations: `top.cmd.<field>`); keys already in the namespace are kept."""
+    if obs["o"] == "raise":
+        return [{"clause": "value", "detail": f"parse_args raised {obs['exc']} on a subgroup + sub-command tree"}]
+    plain = lambda d, n: "--" + n   # noqa: E731
+    names = {spec["name"].lower(): spec for spec in c["cmds"]}
+    strict_report = True
+    try:
+        leaves, classes, subs = expect_tree({"root": c["root"], "dest": "top", "argv": c["root_argv"]}, False, plain)
+        if c.get("token") is None:
+            if not c.get("cmd_default"):
+                raise Reject("sub-command required")
+            spec = next(x for x in c["cmds"] if x["name"] == c["cmd_default"])
+            l2, c2, _ = expect_tree({"root": spec, "dest": "top.cmd", "argv": []}, False, plain)
+            s2 = {}
+            strict_report = False      # the default instance is built, not parsed: its subgroups need not be reported
+            if c["cmd_argv"]:
+                raise Reject("options without a sub-command")
+        else:
+            if c["token"] not in names:
+                raise Reject("unknown sub-command")
+            spec = names[c["token"]]
+            l2, c2, s2 = expect_tree({"root": spec, "dest": "top.cmd", "argv": c["cmd_argv"]}, False, plain)
+        leaves.update(l2)
+        classes.update(c2)
+        classes["top.cmd"] = spec["name"]
+        subs = dict(subs, **s2)
+    except Reject as r:
+        if obs["o"] != "exit" or obs["code"] != 2:
+            return [{"clause": "rejects", "detail": f"expected a rejection ({r}), observed {obs['o']}"}]
+        return []
+    except KeyError:
+        return []
+    if obs["o"] != "ok":
+        return [{"clause": "accepts", "detail": "a valid subgroup + sub-command line was rejected"}]
+    if obs["classes"] != classes:
+        return [{"clause": "select", "detail": f"classes {obs['classes']} expected {classes}"}]
+    if obs["leaves"] != leaves:
+        diff = {k: (obs["leaves"].get(k), leaves.get(k)) for k in set(leaves) | set(obs["leaves"])
+                if obs["leaves"].get(k) != leaves.get(k)}
+        return [{"clause": "value", "detail": f"leaves differ (observed, expected): {diff}"}]
+    rep = dict(obs["subgroups"] or {})
+    if c.get("pre_ns"):
+        # argparse copies the sub-parser's namespace — with its own `subgroups` report — over the parent's, so earlier
+        # keys survive only when the chosen sub-command reports nothing (observed on the clean tree; not demanded)
+        overwritten = c.get("token") is not None and bool(s2)
+        for k, v in (("other.x", "k0"), ("other.y", "k1")):
+            got = rep.pop(k, None)
+            if got != sp.cv(v) and not overwritten:
+                return [{"clause": "reports", "detail": f"the key {k} already reported in the namespace was lost: {obs['subgroups']}"}]
+        if "keep" not in obs["extra_ns"]:
+            return [{"clause": "reports", "detail": "an attribute already in the namespace was lost"}]
+    missing = {k: v for k, v in subs.items() if rep.get(k) != v}
+    extra = {k: v for k, v in rep.items() if k not in subs}
+    if missing or (strict_report and extra):
+        return [{"clause": "reports", "detail": f"namespace.subgroups {obs['subgroups']} expected {subs}: "
+                                                f"missing/wrong {missing} unexpected {extra}"}]
+    return []
+
+
 def oracle(case, obs):
+    if case["op"] == "sg.mixed":
+        return oracle_mixed(case["case"], obs)
     if case["op"] == "sg.e2e":
         return oracle_e2e(case["case"], obs)
     if case["op"] == "sg.union":
@@ -869,8 +978,9 @@ KEYS = ["ka", "kb", "kc", "adam", "sgd"]
 
 
 class Names:
-    def __init__(self, rng, clash):
+    def __init__(self, rng, clash, prefix_free=False):
         self.rng, self.clash, self.n, self.cls_n = rng, clash, 0, 0
+        self.prefix_free = prefix_free       # word + three-digit counter: no name is a prefix of another
         self.made: list[str] = []
 
     def fresh(self, sub: bool) -> str:
@@ -878,6 +988,10 @@ class Names:
         if self.clash:
             return rng.choice(CLASH_SUB if sub else CLASH_LEAF)
         self.n += 1
+        if self.prefix_free:
+            nm = rng.choice(SUBWORDS if sub else WORDS) + str(100 + self.n)
+            self.made.append(nm)
+            return nm
         if self.made and rng.random() < 0.15:
             nm = rng.choice(self.made) + rng.choice(["s", "x", "_b"])        # an extension: prefix relations
         else:
@@ -1185,7 +1299,93 @@ def union_case(rng):
     return {"op": "sg.union", "case": c, "model": False}
 
 
+def any_inst_with_sub(cls) -> bool:
+    for f in cls["fields"]:
+        if f["k"] == "sub":
+            for a in f["alts"]:
+                if a["kind"] == "inst" and any(g["k"] == "sub" for g in a["cls"]["fields"]):
+                    return True
+                if any_inst_with_sub(a["cls"]):
+                    return True
+    return False
+
+
+def mixed_case(rng):
+    """parent = leaves + 1-2 subgroup fields + `cmd: Union[...]`; every sub-command dataclass has leaves and (mostly)
+    subgroup fields of its own; all names distinct, default parser settings"""
+    plain = lambda d, n: "--" + n   # noqa: E731
+    for _ in range(50):
+        names = Names(rng, False, prefix_free=True)
+        root = gen_cls(rng, names, rng.choice([1, 1, 2]), None, is_root=True, allow_required=False)
+        root["name"] = "Top"
+        cmds = []
+        for nm in rng.sample(["Train", "Test", "Export"], rng.choice([2, 2, 3])):
+            spec = gen_cls(rng, names, rng.choice([1, 1, 2]), None, is_root=rng.random() < 0.8, allow_required=False)
+            spec["name"] = nm
+            cmds.append(spec)
+        parts = [root] + cmds
+        if any(any_inst_with_sub(x) for x in parts):
+            continue          # the open finding C07-instance-with-subgroup has its own stream
+        if any(f["name"] == "cmd" for f in root["fields"]) or not any(f["k"] == "sub" for f in root["fields"]):
+            continue
+        if any(clash_possible({"root": x, "dest": "d"}, plain) for x in parts):
+            continue
+
+        def all_names(cls, acc):
+            for f in cls["fields"]:
+                if f["k"] != "hidden":
+                    acc.add(f["name"])
+                if f["k"] == "sub":
+                    for a in f["alts"]:
+                        all_names(a["cls"], acc)
+            return acc
+        per_part = [all_names(x, set()) for x in parts]
+        # the parent parser classifies the tokens behind the sub-command name against ITS options too: an option of
+        # the sub-command that abbreviates parent options ambiguously is rejected by argparse itself — avoid prefixes
+        if any(a != b and (a.startswith(b) or b.startswith(a))
+               for i, pa in enumerate(per_part) for j, pb in enumerate(per_part) if i != j for a in pa for b in pb):
+            continue
+        break
+    else:
+        raise RuntimeError("no mixed tree")
+    constructible = [x for x in cmds if entry_constructible({"kind": "type", "kw": [], "cls": x})]
+    c = {"root": root, "cmds": cmds,
+         "cmd_default": rng.choice(constructible)["name"] if constructible and rng.random() < 0.3 else None}
+    root_pairs, root_foreign, _ = selection(rng, root, "top", plain)
+    rng.shuffle(root_pairs)
+    chosen = rng.choice(cmds)
+    cmd_pairs, cmd_foreign, _ = selection(rng, chosen, "top.cmd", plain)
+    rng.shuffle(cmd_pairs)
+    token = chosen["name"].lower()
+    tag = "valid"
+    r = rng.random()
+    if r < 0.08:
+        token, cmd_pairs, tag = None, [], "no-token"
+    elif r < 0.12:
+        token, tag = "bogus", "unknown-command"
+    elif r < 0.20 and cmd_foreign:
+        o, g = rng.choice(cmd_foreign)
+        v = ("5" if g["ty"] == "int" else "w") if g["k"] in ("leaf", "hidden") else g["alts"][0]["key"]
+        cmd_pairs.insert(rng.randint(0, len(cmd_pairs)), [o, v])
+        tag = "foreign-in-command"
+    elif r < 0.26 and root_pairs:
+        cmd_pairs.append(root_pairs.pop())          # an option of the parent after the sub-command name
+        tag = "parent-option-after-command"
+    elif r < 0.32:
+        subs_ = [p for p in cmd_pairs + root_pairs if p[1] in KEYS]
+        if subs_:
+            rng.choice(subs_)[1] = "zz"
+            tag = "unknown-key"
+    for pr in root_pairs + cmd_pairs:
+        if pr[1].startswith("-") and not pr[1][1:].isdigit():
+            pr[1] = pr[1][1:]          # `--opt -x` is not a value for argparse (all pairs are written `--opt value` here)
+    c.update(root_argv=root_pairs, token=token, cmd_argv=cmd_pairs, pre_ns=rng.random() < 0.3, gtag=tag)
+    return {"op": "sg.mixed", "case": c, "model": False}
+
+
 def gen(rng, tier):
+    for _ in range(150 if tier == "quick" else 900):
+        yield mixed_case(rng)
     n_tree = 1200 if tier == "quick" else 8000
     for i in range(n_tree):
         c = tree_case(rng, tier)
@@ -1212,6 +1412,8 @@ def nontrivial(case, obs):
         return bool(c["argv"]) and tree_depth(c["root"]) >= 2 or c.get("gtag", "").startswith(("foreign", "unknown"))
     if case["op"] == "sg.parse":
         return bool(c["argv"])
+    if case["op"] == "sg.mixed":
+        return c.get("token") is not None
     return bool(c["tokens"])
 
 
@@ -1255,6 +1457,15 @@ def tags(case, obs):
                          else "oracle:reject-unjudged")
         if any(v.startswith("-") for _, v in c["argv"]):
             t.append("value:leading-dash")
+    if case["op"] == "sg.mixed":
+        t.append("mixed:" + c.get("gtag", "corpus"))
+        t.append("mixed:pre-namespace" if c.get("pre_ns") else "mixed:fresh-namespace")
+        t.append("mixed:default-command" if c.get("token") is None and c.get("cmd_default") else
+                 ("mixed:command-given" if c.get("token") else "mixed:no-command"))
+        if obs.get("o") == "ok":
+            sub = obs["subgroups"] or {}
+            t.append("mixed:reported-in-command:%d" % min(3, sum(1 for k in sub if k.startswith("top.cmd."))))
+            t.append("mixed:reported-in-parent:%d" % min(3, sum(1 for k in sub if k.startswith("top.") and not k.startswith("top.cmd."))))
     return t
 
 
